@@ -77,7 +77,7 @@ pub fn compile_files(state: &mut CompilationState, options: &SliceOptions)
 
 // ---- into_updated (C13): the two nested helper fns and the lookups, as assumed contracts ------------
 pub trait Entity {}
-/// nested fn `is_lint_allowed_by(identifiers, lint)`: `identifiers.any(|id| id == "All" || id == lint.code())`
+/// nested fn `is_lint_allowed_by(identifiers, lint)`: `identifiers.any(|id| id.eq_ignore_ascii_case("All") || id.eq_ignore_ascii_case(lint.code()))`
 /// ASSUMED to compute exactly names_allow over the remaining identifiers.
 #[verifier::external_body]
 pub fn is_lint_allowed_by<'b>(identifiers: core::slice::Iter<'b, String>, lint: &Lint) -> (r: bool)
